@@ -41,7 +41,7 @@ RULE = (
     "neither} x {append with offsets 0 / 2.5, stack} then every time_slice / time_interval. Non-trivial = transition whose result is a "
     "strict sub-block or an assembly; distinct = distinct (root, reference block)."
 )
-ASSUMPTIONS = ["negative slice bounds and strides are outside the property's quantifier", "dyadic voxel sizes/origins: exact comparisons"]
+ASSUMPTIONS = ["slice strides other than 1 are outside the property's quantifier (negative bounds are included as spellings of the same range)", "dyadic voxel sizes/origins: exact comparisons"]
 
 BASES = {
     "quick": {2: (3, 4), 3: (2, 3, 2)},
@@ -64,6 +64,11 @@ def cases(tier):
                     if origin == "user-int" and tk in ("times", "notime"):
                         continue
                     out.append({"kind": "bfs", "dim": dim, "shape": list(BASES[tier][dim]), "payload": payload, "time": tk, "origin": origin})
+    # vector payload with exactly ONE component (array shape (..., T, 1)): the time axis must be
+    # found from the flags, not from the number of components
+    for dim in (2, 3):
+        for tk in ("single", "dated", "times"):
+            out.append({"kind": "bfs", "dim": dim, "shape": list(BASES[tier][dim]), "payload": "vector1", "time": tk, "origin": "user"})
     for dim in (2, 3):
         for payload in ("scalar", "vector"):
             for n in (2, 3, 4, 5):
@@ -90,8 +95,8 @@ def base_image(dim, shape, payload, tk, origin):
             kw["reference_date"] = D0 - datetime.timedelta(hours=1)
         elif tk == "times":
             kw["time"] = [0.0, 2.5, 7.0]
-    if payload == "vector":
-        full = full + (2,)
+    if payload in ("vector", "vector1"):
+        full = full + ((2,) if payload == "vector" else (1,))
     data = np.arange(int(np.prod(full)), dtype=float).reshape(full)
     vs = [0.5, 2.0, 0.25][:dim]
     kw["dimensions"] = [vs[a] * shape[a] for a in range(dim)]
@@ -193,6 +198,8 @@ def run_bfs(case, r):
         n = list(img.num_voxels)
         if op[0] == "ti":
             a, b = op[1]
+            T = img.time_num
+            yield "time_interval", "negative-bounds", lambda: img.time_interval(slice(a - T, None if b == T else b - T))
             if a == 0:
                 yield "time_interval", "open-start", lambda: img.time_interval(slice(None, b))
             if b == img.time_num:
@@ -203,6 +210,9 @@ def run_bfs(case, r):
         box = op[1]
         if any(a == 0 or b == n[k] for k, (a, b) in enumerate(box)):
             yield "subregion", "open-ended-slices", lambda: img.subregion(tuple(slice(None if a == 0 else a, None if b == n[k] else b) for k, (a, b) in enumerate(box)))
+        # the same ranges counted from the end (Python's negative bounds)
+        yield "subregion", "negative-bounds", lambda: img.subregion(tuple(slice(a - n[k], None if b == n[k] else b - n[k]) for k, (a, b) in enumerate(box)))
+        yield "subregion", "negative-stop", lambda: img.subregion(tuple(slice(a, None if b == n[k] else b - n[k]) for k, (a, b) in enumerate(box)))
         lo = np.array([a for a, _ in box])
         hi = np.array([b for _, b in box])
         yield "subregion", "voxel-corners", lambda: img.subregion(darsia.make_voxel(np.vstack([lo, hi])))
